@@ -3,7 +3,7 @@ from vlib import core, e1
 
 OPS = dict(END=0, CREATE=1, TCREATE0=2, TCREATE1=3, ATTACH=4, INFL_MSG=5, INFL_READ=6, INFL_TIMER=7,
            SHUT=8, SHUT_B=9, SHUT_W=10, WAIT=11, DESTROY=12, QUIESCE=13, INFL_BUSY=14, GATE_B=15, HOOK_WAITS=16,
-           INFL_STUCK=17, INFL_SYNC_BCAST=18, LATE_AOP=19, HOOK_GATE=20)
+           INFL_STUCK=17, INFL_SYNC_BCAST=18, LATE_AOP=19, HOOK_GATE=20, TIMER_ABS=21, INFL_CBSEND_SKIP=22, INFL_CBSEND_OTHER=23)
 FAULTS_CREATE = 'SC_F_CALLOC|SC_F_EPOLL_CREATE|SC_F_PIPE2|SC_F_EPOLL_CTL|SC_F_PTHREAD_CREATE'
 
 
@@ -83,11 +83,19 @@ def scripts():
         for shut in ('SHUT', 'SHUT_B,SHUT'):
             out.append(('stopaop/W%d/%s' % (W, shut.replace(',', '+')), W, '0',
                         ['HOOK_GATE', 'CREATE', 'TCREATE0'] + shut.split(',') + ['QUIESCE', 'LATE_AOP', 'GATE_B', 'WAIT', 'DESTROY']))
+    # a worker's cbsend(self-skip) while slot 0 was never started: nothing can be sent, the record must still be released
+    for shut in ('SHUT', 'SHUT_B,SHUT'):    # W = 2: the caller is the only running thread (with a third one the send races its shutdown: known finding)
+        out.append(('cbskip/W2/%s' % shut.replace(',', '+'), 2, '0', ['CREATE', 'TCREATE1', 'INFL_CBSEND_SKIP'] + shut.split(',') + ['WAIT', 'DESTROY']))
+    # the broadcast's last share is worked off when its originator has already stopped: worker 1 busy, worker 0 broadcasts
+    # (the share is queued behind the busy callback), shutdown, worker 0 stops, then worker 1 is let go
+    out.append(('cbdone-late/W2', 2, '0', ['CREATE', 'TCREATE0', 'INFL_BUSY', 'QUIESCE', 'INFL_CBSEND_OTHER', 'QUIESCE', 'SHUT', 'QUIESCE', 'GATE_B', 'WAIT', 'DESTROY']))
     # resource failures during creation / thread start (fault menu: each call may fail; bound = number of failures)
     for W in (1, 2):
         out.append(('fail/W%d/create-only' % W, W, FAULTS_CREATE, ['CREATE', 'DESTROY']))
         out.append(('fail/W%d/create+threads' % W, W, FAULTS_CREATE, ['CREATE', 'TCREATE0', 'QUIESCE', 'SHUT', 'WAIT', 'DESTROY']))
         out.append(('fail/W%d/create+threads+msg' % W, W, FAULTS_CREATE, ['CREATE', 'TCREATE0', 'INFL_MSG', 'SHUT', 'WAIT', 'DESTROY']))
+        # timerfd creation fails: for the first add of a timer, and for the replacement an absolute re-add of a relative timer needs
+        out.append(('fail/W%d/timer+abs-readd' % W, W, 'SC_F_TIMERFD', ['CREATE', 'TCREATE0', 'INFL_TIMER', 'TIMER_ABS', 'SHUT', 'WAIT', 'DESTROY']))
     return out
 
 
@@ -109,7 +117,7 @@ def plan(tier, vs):
         if f[0] == 'fail':
             jobs.append((name, 1 if tier == 'quick' else 2, 0 if tier == 'quick' else 1))
             continue
-        if f[0] in ('attach-refused', 'hookwait', 'stuck', 'syncbcast', 'lateaop', 'stopaop'):
+        if f[0] in ('attach-refused', 'hookwait', 'stuck', 'syncbcast', 'lateaop', 'stopaop', 'cbskip', 'cbdone-late'):
             jobs.append((name, 1 if tier == 'quick' else 2, 1 if tier == 'quick' else 2))
             continue
         if f[0] == 'busy':
